@@ -144,6 +144,10 @@ func init() {
 		new(big.Int).Sub(pow(2, 1024), big.NewInt(1)), pow(2, 1024), pow(10, 309), new(big.Int).Neg(pow(2, 1023)), new(big.Int).Neg(pow(10, 308)), new(big.Int).Neg(pow(2, 1024))} {
 		repU = append(repU, intFam(b.String()))
 	}
+	// half-word / word boundaries (all pairs of the full list run in words_test.go)
+	for _, w := range []string{"46341", "65536", "3037000500", "4000000000", "4294967295", "-4294967296"} {
+		repU = append(repU, intFam(w))
+	}
 }
 
 // canonicalLit: the literal is exactly what the encoder prints for the
